@@ -1,7 +1,8 @@
 /-
-With no depth limit (and max_seq_len ≥ 1) the shown value of a readable value is readable: truncation keeps a prefix of
-every container and wraps it in a trailing comment, sorting permutes dict entries, a truncated frozenset becomes
-`frozenset([...])` written as a call.  So the reader theorem applies to truncated and sorted output.
+With max_seq_len ≥ 1 (any depth limit, any sort flag) the shown value of a readable value is readable: truncation keeps a
+prefix of every container and wraps it in a trailing comment, sorting permutes dict entries, a truncated frozenset becomes
+`frozenset([...])` written as a call, a node at the depth cut becomes a placeholder (`name(...)`, `[...]`, `(...)`, `{...}`)
+that the reader reads too.  So the reader theorem applies to truncated, sorted and depth-limited output.
 -/
 import PP.Proofs.ReaderRT
 import PP.Proofs.Shown
@@ -19,12 +20,48 @@ theorem inRdP_iff : ∀ (qs : List (PyVal × PyVal)), inRdP qs = true ↔ ∀ q 
   | [] => by simp [inRdP]
   | (k, v) :: r => by simp [inRdP, inRdP_iff r, and_assoc]
 
-/-- the limits under which the shown value stays readable: no depth limit, max_seq_len ≠ 0 -/
-def Trunc (ctx : Ctx) : Prop := ctx.depthLeft = none ∧ ctx.maxSeqLen ≠ some 0
+/-- the limits under which the shown value stays readable: max_seq_len ≠ 0 (the property's N ≥ 1) -/
+def Trunc (ctx : Ctx) : Prop := ctx.maxSeqLen ≠ some 0
 
-theorem Trunc.nested {ctx : Ctx} (h : Trunc ctx) : Trunc ctx.nested := ⟨by simp [Ctx.nested, h.1], h.2⟩
-theorem Trunc.dz {ctx : Ctx} (h : Trunc ctx) : ctx.depthZero = false := by simp [Ctx.depthZero, h.1]
-theorem Trunc.any {ctx : Ctx} (h : Trunc ctx) : ctx.depthLeft.any (· == 0) = false := by simp [h.1]
+theorem Trunc.nested {ctx : Ctx} (h : Trunc ctx) : Trunc ctx.nested := h
+
+theorem any_eq_dz (ctx : Ctx) : ctx.depthLeft.any (· == 0) = ctx.depthZero := by
+  unfold Ctx.depthZero
+  cases ctx.depthLeft with
+  | none => rfl
+  | some n => cases n <;> simp
+
+/-! ### placeholders are readable -/
+
+theorem phName_of_okName (s : Str) (h : okName s = true) : phName s = true := by
+  simp only [okName, Bool.and_eq_true, Bool.not_eq_true'] at h
+  simp only [phName, Bool.and_eq_true, Bool.not_eq_true']
+  exact ⟨⟨h.1.1.1.1.1, h.1.1.1.1.2⟩, h.2⟩
+
+theorem inRd_phCall (fn : QualName) (h : phName fn.2 = true) : inRd (phCall fn) = true := by
+  simp [phCall, inRd, identPh, h, sEll]
+
+theorem inRd_phLit (kind : Nat) : inRd (phLit kind) = true := by
+  unfold phLit
+  by_cases h0 : (kind == 0) = true
+  · simp [h0, inRd, identPh, sEll]
+  · by_cases h1 : (kind == 1) = true
+    · simp [h0, h1, inRd, identPh, sEll]
+    · simp [h0, h1, inRd, identPh, sEll]
+
+theorem phName_cls (cls : Option QualName) (hc : clsOk cls = true) (nm : Str) (hb : phName nm = true) :
+    phName (cls.getD (builtin nm)).2 = true := by
+  cases cls with
+  | none => exact hb
+  | some q => exact phName_of_okName _ hc
+
+theorem phName_seqName (kind : Nat) : phName (seqName kind) = true := by
+  unfold seqName; split
+  · decide
+  · split <;> decide
+
+theorem emptyDictSub_ph (fn : QualName) : emptyDictSub (phCall fn) = false := rfl
+theorem emptyDictSub_phLit (k : Nat) : emptyDictSub (phLit k) = false := rfl
 
 theorem takeOpt_ne_nil {α : Type} {n : Option Nat} (hn : n ≠ some 0) {xs : List α} (h : xs ≠ []) : takeOpt n xs ≠ [] := by
   cases n with
@@ -48,7 +85,7 @@ theorem cut_ne_nil (ctx : Ctx) (hT : Trunc ctx) {xs : List PyVal} (h : xs ≠ []
     (if xs.length == 1 then shownL ctx.nested xs else takeOpt ctx.maxSeqLen (shownL ctx.nested xs)) ≠ [] := by
   split
   · exact shownL_ne_nil _ h
-  · exact takeOpt_ne_nil hT.2 (shownL_ne_nil _ h)
+  · exact takeOpt_ne_nil hT (shownL_ne_nil _ h)
 
 theorem inRdL_sub {xs ys : List PyVal} (h : ∀ x ∈ ys, x ∈ xs) (hx : inRdL xs = true) : inRdL ys = true := by
   rw [inRdL_iff] at hx ⊢
@@ -70,48 +107,63 @@ theorem emptyDictSub_shown (ctx : Ctx) (hT : Trunc ctx) : ∀ (v : PyVal), empty
   | .opaque _, h => by simp [shown, emptyDictSub] at h
   | .ident _, h => by simp [shown, emptyDictSub] at h
   | .timedelta _ _ _, h => by simp [shown, emptyDictSub] at h
-  | .path _ _, h => by simp only [shown, hT.dz, Bool.false_eq_true, if_false, emptyDictSub] at h
-  | .int _ _ _, h => by simp only [shown, hT.dz, Bool.false_eq_true, if_false, emptyDictSub] at h
-  | .str _ _ _, h => by simp only [shown, hT.dz, Bool.false_eq_true, if_false, emptyDictSub] at h
+  | .path _ _, h => by simp only [shown] at h; split at h <;> simp [emptyDictSub] at h
+  | .int _ _ _, h => by simp only [shown] at h; split at h <;> simp [emptyDictSub, phCall] at h
+  | .str _ _ _, h => by simp only [shown] at h; split at h <;> simp [emptyDictSub, phCall] at h
   | .float _ kind _ _ _, h => by
-      simp only [shown, hT.dz, hT.nested.dz, Bool.false_eq_true, if_false] at h
-      split at h <;> simp [emptyDictSub] at h
-  | .frozenset _ xs, h => by
-      simp only [shown, hT.any, Bool.false_eq_true, if_false] at h
-      split at h <;> simp [emptyDictSub] at h
-  | .call _ args kwargs, h => by
-      simp only [shown, hT.any, Bool.false_eq_true, if_false] at h
-      split at h <;> simp [emptyDictSub] at h
-  | .seq kind cls xs, h => by
-      simp only [shown, hT.any, hT.dz, Bool.false_eq_true, if_false] at h
+      simp only [shown] at h
       split at h
+      · simp [emptyDictSub, phCall] at h
+      · split at h
+        · simp [emptyDictSub] at h
+        · split at h <;> simp [emptyDictSub] at h
+  | .frozenset _ xs, h => by
+      simp only [shown] at h
+      split at h
+      · simp [emptyDictSub, phCall] at h
       · split at h <;> simp [emptyDictSub] at h
-      · unfold cutSeq at h
-        split at h <;> simp [emptyDictSub] at h
-  | .dict cls kvs, h => by
-      simp only [shown, hT.dz, Bool.false_eq_true, if_false] at h
-      have hlen : (if ctx.sortKeys = true then sortK (shownPairs ctx kvs) else shownPairs ctx kvs).length = kvs.length := by
-        split
-        · rw [(C01.sortK_perm _).length_eq, shownPairs_length]
-        · exact shownPairs_length _ _
-      generalize (if ctx.sortKeys = true then sortK (shownPairs ctx kvs) else shownPairs ctx kvs) = sp at h hlen
-      cases kvs with
-      | nil =>
-        cases cls with
-        | none =>
+  | .call _ args kwargs, h => by
+      simp only [shown] at h
+      split at h
+      · simp [emptyDictSub, phCall] at h
+      · split at h <;> simp [emptyDictSub] at h
+  | .seq kind cls xs, h => by
+      simp only [shown] at h
+      split at h
+      · split at h
+        · simp [emptyDictSub] at h
+        · split at h <;> simp [emptyDictSub, phCall] at h
+      · split at h
+        · split at h
+          · split at h <;> simp [emptyDictSub, phLit] at h
+          · simp [emptyDictSub, phCall] at h
+        · unfold cutSeq at h
           split at h <;> simp [emptyDictSub] at h
-        | some q => simp [emptyDictSub]
-      | cons kv r =>
-        exfalso
-        have hne : (takeOpt ctx.maxSeqLen sp).map (·.2) ≠ [] := by
-          have : sp ≠ [] := by intro e; rw [e] at hlen; simp at hlen
-          have := takeOpt_ne_nil hT.2 this
-          simpa using this
-        obtain ⟨a, b, hl⟩ := List.exists_cons_of_ne_nil hne
-        rw [hl] at h
-        split at h
-        · cases cls <;> simp [emptyDictSub] at h
-        · cases cls <;> simp [emptyDictSub] at h
+  | .dict cls kvs, h => by
+      simp only [shown] at h
+      split at h
+      · split at h <;> simp [emptyDictSub, phLit] at h
+      · have hlen : (if ctx.sortKeys = true then sortK (shownPairs ctx kvs) else shownPairs ctx kvs).length = kvs.length := by
+          split
+          · rw [(C01.sortK_perm _).length_eq, shownPairs_length]
+          · exact shownPairs_length _ _
+        generalize (if ctx.sortKeys = true then sortK (shownPairs ctx kvs) else shownPairs ctx kvs) = sp at h hlen
+        cases kvs with
+        | nil =>
+          cases cls with
+          | none => split at h <;> simp [emptyDictSub] at h
+          | some q => simp [emptyDictSub]
+        | cons kv r =>
+          exfalso
+          have hne : (takeOpt ctx.maxSeqLen sp).map (·.2) ≠ [] := by
+            have : sp ≠ [] := by intro e; rw [e] at hlen; simp at hlen
+            have := takeOpt_ne_nil hT this
+            simpa using this
+          obtain ⟨a, b, hl⟩ := List.exists_cons_of_ne_nil hne
+          rw [hl] at h
+          split at h
+          · cases cls <;> simp [emptyDictSub] at h
+          · cases cls <;> simp [emptyDictSub] at h
 
 theorem isListLit_cons (y : PyVal) (ys : List PyVal) : isListLit (.seq 0 none (y :: ys)) = true := rfl
 
@@ -121,17 +173,17 @@ theorem isListLit_of_ne_nil {l : List PyVal} (h : l ≠ []) : isListLit (.seq 0 
   | cons y ys => rfl
 
 /-- a non-empty list literal (under comments) is shown as one -/
-theorem isListLit_shown (ctx : Ctx) (hT : Trunc ctx) : ∀ (x : PyVal), isListLit (stripComments x) = true →
+theorem isListLit_shown (ctx : Ctx) (hT : Trunc ctx) (hz : ctx.depthZero = false) : ∀ (x : PyVal), isListLit (stripComments x) = true →
     isListLit (stripComments (shown ctx x)) = true
-  | .commented v t, h => by simp only [shown, stripComments] at h ⊢; exact isListLit_shown ctx hT v h
-  | .trailing v t, h => by simp only [shown, stripComments] at h ⊢; exact isListLit_shown ctx hT v h
+  | .commented v t, h => by simp only [shown, stripComments] at h ⊢; exact isListLit_shown ctx hT hz v h
+  | .trailing v t, h => by simp only [shown, stripComments] at h ⊢; exact isListLit_shown ctx hT hz v h
   | .seq kind cls xs, h => by
       simp only [stripComments] at h
       obtain ⟨y, ys, e⟩ := isListLit_spec _ h
       injection e with e1 e2 e3
       subst e1 e2 e3
       have hl : ((y :: ys).length == 0) = false := by simp
-      simp only [shown, hl, hT.dz, Bool.false_eq_true, if_false]
+      simp only [shown, hl, hz, Bool.false_eq_true, if_false]
       unfold cutSeq
       split
       · simp only [stripComments]
@@ -155,7 +207,7 @@ theorem isListLit_shown (ctx : Ctx) (hT : Trunc ctx) : ∀ (x : PyVal), isListLi
 theorem nmFrozenset_eq : (builtin nmFrozenset).2 = sFrozenset := rfl
 
 mutual
-/-- **the shown value of a readable value is readable** (no depth limit, max_seq_len ≥ 1, any sort flag) -/
+/-- **the shown value of a readable value is readable** (max_seq_len ≥ 1; any depth limit, any sort flag) -/
 theorem inRd_shown : (v : PyVal) → (ctx : Ctx) → Trunc ctx → inRd v = true → inRd (shown ctx v) = true
   | .commented v t, ctx, hT, h => by simp only [shown, inRd] at *; exact inRd_shown v ctx hT h
   | .trailing v t, ctx, hT, h => by
@@ -171,76 +223,148 @@ theorem inRd_shown : (v : PyVal) → (ctx : Ctx) → Trunc ctx → inRd v = true
   | .none, _, _, _ => rfl
   | .ellipsis, _, _, _ => rfl
   | .bool _, _, _, _ => rfl
-  | .int cls val lit, ctx, hT, h => by simp only [shown, hT.dz, Bool.false_eq_true, if_false]; exact h
+  | .ident parts, _, _, h => by simp only [shown]; exact h
+  | .int cls val lit, ctx, hT, h => by
+      simp only [inRd, Bool.and_eq_true] at h
+      simp only [shown]
+      split
+      · exact inRd_phCall _ (phName_cls cls h.1 nmInt (by decide))
+      · simp only [inRd, Bool.and_eq_true]; exact h
   | .float cls kind lit n d, ctx, hT, h => by
-      simp only [shown, hT.dz, hT.nested.dz, Bool.false_eq_true, if_false]
-      split <;> exact h
-  | .str cls b s, ctx, hT, h => by simp only [shown, hT.dz, Bool.false_eq_true, if_false]; exact h
+      simp only [inRd, Bool.and_eq_true] at h
+      simp only [shown]
+      split
+      · exact inRd_phCall _ (phName_cls cls h.1 nmFloat (by decide))
+      · split
+        · simp only [inRd, Bool.and_eq_true]; exact h
+        · split
+          · -- inf / nan one level above the cut: `float(str(...))`
+            have hph : inRd (phCall (builtin nmStr)) = true := inRd_phCall _ (by decide)
+            rw [inRd, inRdL, inRdL, inRdK, hph]
+            simp only [Bool.and_true, Bool.or_eq_true]
+            cases cls with
+            | some q => exact Or.inl (Or.inl (by simpa [clsOk] using h.1))
+            | none => exact Or.inr (by simp [floatPh, builtin, nmFloat, sFloat, soleStrPh, phCall, strPhParts])
+          · simp only [inRd, Bool.and_eq_true]; exact h
+  | .str cls b s, ctx, hT, h => by
+      simp only [inRd] at h
+      simp only [shown]
+      split
+      · refine inRd_phCall _ (phName_cls cls h _ ?_)
+        split <;> decide
+      · simp only [inRd]; exact h
   | .frozenset cls xs, ctx, hT, h => by
       simp only [inRd, Bool.and_eq_true] at h
       have ih := inRdL_shown xs ctx.nested hT.nested h.2
-      simp only [shown, hT.any, Bool.false_eq_true, if_false]
+      simp only [shown]
       split
-      · rename_i t ht
-        obtain ⟨_, ⟨n, hn, hgt⟩, _⟩ := withTruncation_some ht
-        have hne : xs ≠ [] := by intro e; rw [e] at hgt; simp at hgt
-        have hcut := cut_ne_nil ctx hT hne
-        have hin : inRd (PyVal.trailing (.seq 0 none (if xs.length == 1 then shownL ctx.nested xs else takeOpt ctx.maxSeqLen (shownL ctx.nested xs))) t) = true := by
-          simp only [inRd, clsOk, Bool.true_and, emptyDictSub, Bool.not_false, Bool.or_true, Bool.and_true, Bool.and_eq_true, decide_eq_true_eq]
-          exact ⟨by omega, inRdL_cut ctx xs.length ih⟩
-        rw [inRd, inRdL, inRdL, inRdK, hin]
-        simp only [Bool.and_true, Bool.or_eq_true]
-        cases cls with
-        | some q => exact Or.inl (by simpa [clsOk] using h.1)
-        | none =>
-          refine Or.inr ?_
-          simp only [Option.getD_none, fsetLit, nmFrozenset_eq, beq_self_eq_true, List.isEmpty_nil, Bool.true_and, soleListLit, stripComments]
-          exact isListLit_of_ne_nil hcut
-      · simp only [inRd, Bool.and_eq_true]; exact ⟨h.1, ih⟩
+      · exact inRd_phCall _ (phName_cls cls h.1 nmFrozenset (by decide))
+      · split
+        · rename_i t ht
+          obtain ⟨_, ⟨n, hn, hgt⟩, _⟩ := withTruncation_some ht
+          have hne : xs ≠ [] := by intro e; rw [e] at hgt; simp at hgt
+          have hcut := cut_ne_nil ctx hT hne
+          have hin : inRd (PyVal.trailing (.seq 0 none (if xs.length == 1 then shownL ctx.nested xs else takeOpt ctx.maxSeqLen (shownL ctx.nested xs))) t) = true := by
+            simp only [inRd, clsOk, Bool.true_and, emptyDictSub, Bool.not_false, Bool.or_true, Bool.and_true, Bool.and_eq_true, decide_eq_true_eq]
+            exact ⟨by omega, inRdL_cut ctx xs.length ih⟩
+          rw [inRd, inRdL, inRdL, inRdK, hin]
+          simp only [Bool.and_true, Bool.or_eq_true]
+          cases cls with
+          | some q => exact Or.inl (Or.inl (by simpa [clsOk] using h.1))
+          | none =>
+            refine Or.inl (Or.inr ?_)
+            simp only [Option.getD_none, fsetLit, nmFrozenset_eq, beq_self_eq_true, List.isEmpty_nil, Bool.true_and, soleListLit, stripComments]
+            exact isListLit_of_ne_nil hcut
+        · simp only [inRd, Bool.and_eq_true]; exact ⟨h.1, ih⟩
   | .call f args kwargs, ctx, hT, h => by
       simp only [inRd, Bool.and_eq_true] at h
       obtain ⟨⟨hn, ha⟩, hk⟩ := h
-      simp only [shown, hT.any, Bool.false_eq_true, if_false]
-      by_cases hh : hugCall args kwargs = true
-      · simp only [hh, if_true, inRd, inRdK, Bool.and_true, Bool.and_eq_true]
-        refine ⟨?_, inRdL_shown args ctx hT ha⟩
+      -- the three ways a call is readable
+      have hcases : okName f.2 = true ∨ fsetLit f args kwargs = true ∨ floatPh f args kwargs = true := by
         rcases Bool.or_eq_true _ _ |>.mp hn with h1 | h1
-        · simp [h1]
-        · -- `frozenset([...])` written as a call stays one
-          simp only [fsetLit, Bool.and_eq_true, beq_iff_eq, List.isEmpty_iff] at h1
-          obtain ⟨⟨hname, hk0⟩, hshape⟩ := h1
-          have : fsetLit f (shownL ctx args) [] = true := by
-            simp only [fsetLit, hname, beq_self_eq_true, List.isEmpty_nil, Bool.true_and]
+        · rcases Bool.or_eq_true _ _ |>.mp h1 with h2 | h2
+          · exact Or.inl h2
+          · exact Or.inr (Or.inl h2)
+        · exact Or.inr (Or.inr h1)
+      simp only [shown]
+      split
+      · -- at the cut: `name(...)`
+        refine inRd_phCall _ ?_
+        rcases hcases with h1 | h1 | h1
+        · exact phName_of_okName _ h1
+        · simp only [fsetLit, Bool.and_eq_true, beq_iff_eq] at h1; rw [h1.1.1]; decide
+        · simp only [floatPh, Bool.and_eq_true, beq_iff_eq] at h1; rw [h1.1.1]; decide
+      · rename_i hany
+        have hz : ctx.depthZero = false := by rw [← any_eq_dz]; simpa using hany
+        by_cases hh : hugCall args kwargs = true
+        · simp only [hh, if_true, inRd, inRdK, Bool.and_true, Bool.and_eq_true]
+          refine ⟨?_, inRdL_shown args ctx hT ha⟩
+          rcases hcases with h1 | h1 | h1
+          · simp [h1]
+          · -- `frozenset([...])` written as a call stays one
+            simp only [fsetLit, Bool.and_eq_true, beq_iff_eq, List.isEmpty_iff] at h1
+            obtain ⟨⟨hname, hk0⟩, hshape⟩ := h1
+            have : fsetLit f (shownL ctx args) [] = true := by
+              simp only [fsetLit, hname, beq_self_eq_true, List.isEmpty_nil, Bool.true_and]
+              cases args with
+              | nil => simp [soleListLit] at hshape
+              | cons x r =>
+                cases r with
+                | nil => simp only [shownL, soleListLit] at hshape ⊢; exact isListLit_shown ctx hT hz x hshape
+                | cons x2 r2 => simp [soleListLit] at hshape
+            simp [this]
+          · -- `float(str(...))` does not hug
+            exfalso
+            simp only [floatPh, Bool.and_eq_true, beq_iff_eq, List.isEmpty_iff] at h1
+            obtain ⟨⟨_, hk0⟩, hshape⟩ := h1
+            subst hk0
+            cases args with
+            | nil => simp [soleStrPh] at hshape
+            | cons x r =>
+              cases r with
+              | cons x2 r2 => cases x <;> simp [soleStrPh] at hshape
+              | nil =>
+                cases x with
+                | ident parts => simp [hugCall, stripComments, isHuggable] at hh
+                | _ => simp [soleStrPh] at hshape
+        · simp only [hh, Bool.false_eq_true, if_false, inRd, Bool.and_eq_true]
+          refine ⟨⟨?_, inRdL_shown args ctx.nested hT.nested ha⟩, inRdK_shown kwargs ctx.nested hT.nested hk⟩
+          rcases hcases with h1 | h1 | h1
+          · simp [h1]
+          · -- a frozenset literal call has one huggable argument and no keywords: it hugs
+            exfalso
+            simp only [fsetLit, Bool.and_eq_true, beq_iff_eq, List.isEmpty_iff] at h1
+            obtain ⟨⟨_, hk0⟩, hshape⟩ := h1
+            subst hk0
             cases args with
             | nil => simp [soleListLit] at hshape
             | cons x r =>
               cases r with
-              | nil => simp only [shownL, soleListLit] at hshape ⊢; exact isListLit_shown ctx hT x hshape
               | cons x2 r2 => simp [soleListLit] at hshape
-          simp [this]
-      · simp only [hh, Bool.false_eq_true, if_false, inRd, Bool.and_eq_true]
-        refine ⟨⟨?_, inRdL_shown args ctx.nested hT.nested ha⟩, inRdK_shown kwargs ctx.nested hT.nested hk⟩
-        rcases Bool.or_eq_true _ _ |>.mp hn with h1 | h1
-        · simp [h1]
-        · -- a frozenset literal call has one huggable argument and no keywords: it hugs
-          exfalso
-          simp only [fsetLit, Bool.and_eq_true, beq_iff_eq, List.isEmpty_iff] at h1
-          obtain ⟨⟨_, hk0⟩, hshape⟩ := h1
-          subst hk0
-          cases args with
-          | nil => simp [soleListLit] at hshape
-          | cons x r =>
-            cases r with
-            | cons x2 r2 => simp [soleListLit] at hshape
-            | nil =>
-              simp only [soleListLit] at hshape
-              obtain ⟨y, ys, e⟩ := isListLit_spec _ hshape
-              exact hh (by simp [hugCall, e, isHuggable])
+              | nil =>
+                simp only [soleListLit] at hshape
+                obtain ⟨y, ys, e⟩ := isListLit_spec _ hshape
+                exact hh (by simp [hugCall, e, isHuggable])
+          · -- `float(str(...))`: the placeholder argument is shown as itself
+            simp only [floatPh, Bool.and_eq_true, beq_iff_eq, List.isEmpty_iff] at h1
+            obtain ⟨⟨hname, hk0⟩, hshape⟩ := h1
+            subst hk0
+            have : floatPh f (shownL ctx.nested args) (shownKw ctx.nested []) = true := by
+              cases args with
+              | nil => simp [soleStrPh] at hshape
+              | cons x r =>
+                cases r with
+                | cons x2 r2 => cases x <;> simp [soleStrPh] at hshape
+                | nil =>
+                  cases x with
+                  | ident parts => simp only [floatPh, hname, shownL, shown, shownKw, soleStrPh] at hshape ⊢; simpa using hshape
+                  | _ => simp [soleStrPh] at hshape
+            simp [this]
   | .seq kind cls xs, ctx, hT, h => by
       simp only [inRd, Bool.and_eq_true, decide_eq_true_eq] at h
       obtain ⟨⟨hc, hk⟩, hxs⟩ := h
       have ih := inRdL_shown xs ctx.nested hT.nested hxs
-      simp only [shown, hT.any, hT.dz, Bool.false_eq_true, if_false]
+      simp only [shown]
       split
       · rename_i hl0
         have : xs = [] := by
@@ -248,52 +372,78 @@ theorem inRd_shown : (v : PyVal) → (ctx : Ctx) → Trunc ctx → inRd v = true
           | nil => rfl
           | cons a b => simp at hl0
         subst this
-        split <;> simp [inRd, hc, hk, inRdL]
-      · unfold cutSeq
         split
-        · simp only [inRd, emptyDictSub, Bool.not_false, Bool.or_true, Bool.and_true, Bool.and_eq_true, decide_eq_true_eq]
-          exact ⟨⟨hc, hk⟩, inRdL_cut ctx xs.length ih⟩
-        · simp only [inRd, Bool.and_eq_true, decide_eq_true_eq]
-          exact ⟨⟨hc, hk⟩, ih⟩
+        · simp [inRd, hc, hk, inRdL]
+        · split
+          · exact inRd_phCall _ (phName_cls cls hc _ (phName_seqName kind))
+          · simp [inRd, hc, hk, inRdL]
+      · split
+        · -- at the cut
+          split
+          · split
+            · exact inRd_phLit kind
+            · rename_i hcn
+              have hph := inRd_phLit kind
+              rw [inRd, inRdL, inRdL, inRdK, hph]
+              simp only [Bool.and_true, Bool.or_eq_true]
+              cases cls with
+              | none => simp at hcn
+              | some q => exact Or.inl (Or.inl (by simpa [clsOk] using hc))
+          · exact inRd_phCall _ (phName_cls cls hc _ (phName_seqName kind))
+        · unfold cutSeq
+          split
+          · simp only [inRd, emptyDictSub, Bool.not_false, Bool.or_true, Bool.and_true, Bool.and_eq_true, decide_eq_true_eq]
+            exact ⟨⟨hc, hk⟩, inRdL_cut ctx xs.length ih⟩
+          · simp only [inRd, Bool.and_eq_true, decide_eq_true_eq]
+            exact ⟨⟨hc, hk⟩, ih⟩
   | .dict cls kvs, ctx, hT, h => by
       simp only [inRd, Bool.and_eq_true] at h
       have ih := inRdP_shown kvs ctx hT h.2
-      simp only [shown, hT.dz, Bool.false_eq_true, if_false]
-      have hmem : ∀ q ∈ (takeOpt ctx.maxSeqLen (if ctx.sortKeys = true then sortK (shownPairs ctx kvs) else shownPairs ctx kvs)).map (·.2),
-          inRd q.1 = true ∧ inRd q.2 = true := by
-        intro q hq
-        simp only [List.mem_map] at hq
-        obtain ⟨p, hp, rfl⟩ := hq
-        have hp1 := mem_takeOpt' _ _ p hp
-        have hp' : p ∈ shownPairs ctx kvs := by
-          split at hp1
-          · exact (C01.sortK_perm _).mem_iff.mp hp1
-          · exact hp1
-        exact ih p hp'
-      have hdict : inRd (.dict cls ((takeOpt ctx.maxSeqLen (if ctx.sortKeys = true then sortK (shownPairs ctx kvs) else shownPairs ctx kvs)).map (·.2))) = true := by
-        simp only [inRd, Bool.and_eq_true]
-        exact ⟨h.1, (inRdP_iff _).mpr hmem⟩
+      simp only [shown]
       split
-      · rename_i t ht
-        obtain ⟨_, ⟨n, hn, hgt⟩, _⟩ := withTruncation_some ht
-        simp only [inRd, Bool.and_eq_true, Bool.or_eq_true, Bool.not_eq_true']
-        refine ⟨by simpa [inRd] using hdict, Or.inr ?_⟩
-        -- a truncated dict shows at least one entry
-        have hlen : (if ctx.sortKeys = true then sortK (shownPairs ctx kvs) else shownPairs ctx kvs).length = kvs.length := by
-          split
-          · rw [(C01.sortK_perm _).length_eq, shownPairs_length]
-          · exact shownPairs_length _ _
-        have hne : (takeOpt ctx.maxSeqLen (if ctx.sortKeys = true then sortK (shownPairs ctx kvs) else shownPairs ctx kvs)).map (·.2) ≠ [] := by
-          have : (if ctx.sortKeys = true then sortK (shownPairs ctx kvs) else shownPairs ctx kvs) ≠ [] := by
-            intro e; rw [e] at hlen; simp at hlen; omega
-          have := takeOpt_ne_nil hT.2 this
-          simpa using this
-        obtain ⟨a, b, hl⟩ := List.exists_cons_of_ne_nil hne
-        rw [hl]
-        cases cls <;> rfl
-      · exact hdict
+      · -- at the cut
+        split
+        · exact inRd_phLit 2
+        · rename_i hcn
+          have hph := inRd_phLit 2
+          rw [inRd, inRdL, inRdL, inRdK, hph]
+          simp only [Bool.and_true, Bool.or_eq_true]
+          cases cls with
+          | none => simp at hcn
+          | some q => exact Or.inl (Or.inl (by simpa [clsOk] using h.1))
+      · have hmem : ∀ q ∈ (takeOpt ctx.maxSeqLen (if ctx.sortKeys = true then sortK (shownPairs ctx kvs) else shownPairs ctx kvs)).map (·.2),
+            inRd q.1 = true ∧ inRd q.2 = true := by
+          intro q hq
+          simp only [List.mem_map] at hq
+          obtain ⟨p, hp, rfl⟩ := hq
+          have hp1 := mem_takeOpt' _ _ p hp
+          have hp' : p ∈ shownPairs ctx kvs := by
+            split at hp1
+            · exact (C01.sortK_perm _).mem_iff.mp hp1
+            · exact hp1
+          exact ih p hp'
+        have hdict : inRd (.dict cls ((takeOpt ctx.maxSeqLen (if ctx.sortKeys = true then sortK (shownPairs ctx kvs) else shownPairs ctx kvs)).map (·.2))) = true := by
+          simp only [inRd, Bool.and_eq_true]
+          exact ⟨h.1, (inRdP_iff _).mpr hmem⟩
+        split
+        · rename_i t ht
+          obtain ⟨_, ⟨n, hn, hgt⟩, _⟩ := withTruncation_some ht
+          simp only [inRd, Bool.and_eq_true, Bool.or_eq_true, Bool.not_eq_true']
+          refine ⟨by simpa [inRd] using hdict, Or.inr ?_⟩
+          have hlen : (if ctx.sortKeys = true then sortK (shownPairs ctx kvs) else shownPairs ctx kvs).length = kvs.length := by
+            split
+            · rw [(C01.sortK_perm _).length_eq, shownPairs_length]
+            · exact shownPairs_length _ _
+          have hne : (takeOpt ctx.maxSeqLen (if ctx.sortKeys = true then sortK (shownPairs ctx kvs) else shownPairs ctx kvs)).map (·.2) ≠ [] := by
+            have : (if ctx.sortKeys = true then sortK (shownPairs ctx kvs) else shownPairs ctx kvs) ≠ [] := by
+              intro e; rw [e] at hlen; simp at hlen; omega
+            have := takeOpt_ne_nil hT this
+            simpa using this
+          obtain ⟨a, b, hl⟩ := List.exists_cons_of_ne_nil hne
+          rw [hl]
+          cases cls <;> rfl
+        · exact hdict
   | .opaque _, _, _, h => by simp [inRd] at h
-  | .ident _, _, _, h => by simp [inRd] at h
   | .timedelta _ _ _, _, _, h => by simp [inRd] at h
   | .path _ _, _, _, h => by simp [inRd] at h
 
